@@ -69,15 +69,28 @@ class Solver:
         """-> ('sat'|'unsat'|'unknown'|'error', model_text). Any `(error` in the solver output makes the
         answer 'error' (an old z3 can drop an assertion it cannot parse and still answer)."""
         r, out = self._run(decls, asserts, False)
+        if r == "unknown" and self.binary == "z3":
+            # a time-out under load or an incomplete tactic: ask the other installed solvers before giving up
+            for alt in (Solver("z3-new", ("-in",), self.timeout_s), Solver("cvc5", ("--lang", "smt2", "--tlimit=%d" % (self.timeout_s * 1000)), self.timeout_s)):
+                alt_is_z3 = alt.binary.startswith("z3")
+                r2, out2 = alt._run(decls, asserts, False, z3_options=alt_is_z3)
+                self.time += alt.time
+                self.queries += 1
+                if r2 in ("sat", "unsat"):
+                    if r2 == "sat" and want_model:
+                        r3, out3 = alt._run(decls, asserts, True, z3_options=alt_is_z3)
+                        if r3 == "sat":
+                            return r3, out3
+                    return r2, out2
         if r == "sat" and want_model:
             r2, out2 = self._run(decls, asserts, True)
             if r2 == "sat":
                 return r2, out2
         return r, out
 
-    def _run(self, decls, asserts, model):
+    def _run(self, decls, asserts, model, z3_options=None):
         lines = []
-        if self.binary != "z3":
+        if not (self.binary == "z3" if z3_options is None else z3_options):
             lines += ["(set-option :produce-models true)", "(set-logic ALL)"]
         else:
             lines += ["(set-option :timeout %d)" % (self.timeout_s * 1000)]
@@ -327,6 +340,10 @@ def spec_heap_resize():
                         AND("(= %s %s)" % (new, bvconst(0)), "(= %s %s)" % (osz, old_bytes), "(= %s %s)" % (oal, al), "(not (= %s %s))" % (size, bvconst(0)))))
         fin = ex.read_cell(p, "O:arg1", (1,), "usize")[1]
         obs.append(("capacity field ends as new_size", "(= %s %s)" % (fin, new)))
+        if deallocs:
+            ptr = ex.as_bv(ex.read_cell(p, "O:arg1", (0,), "usize"))[1]
+            obs.append(("after giving the block back the storage pointer is non-null and aligned for the element type (typed views of the empty vector are built from it)",
+                        AND("(not (= %s %s))" % (ptr, bvconst(0)), "(= (bvand %s (bvsub %s %s)) %s)" % (ptr, al, bvconst(1), bvconst(0)))))
         return obs
 
     def on_panic(ex, p):
@@ -336,7 +353,7 @@ def spec_heap_resize():
         lim = zx("(bvsub %s (bvsub %s %s))" % (ISIZE_MAX(), al, bvconst(1)))
         return [("panics only when new_size x element size is not a valid allocation size (or the allocator failed)",
                  OR("(bvugt %s %s)" % (new_bytes_wide, lim), "true" if "handle_alloc_error" in str(p.outcome) or "unwrap_or_else" in str(p.outcome) else "false"))]
-    return Spec("HeapMem::resize", "src/mem/heap.rs", "resize", ["C18", "C10"], _heap_invariant, on_return, on_panic, "layouts presented to alloc/realloc/dealloc (one inductive step from any valid HeapMem)")
+    return Spec("HeapMem::resize", "src/mem/heap.rs", "resize", ["C18", "C10", "C12"], _heap_invariant, on_return, on_panic, "layouts presented to alloc/realloc/dealloc (one inductive step from any valid HeapMem)")
 
 
 def spec_heap_expand():
@@ -362,6 +379,15 @@ def spec_heap_expand():
     return Spec("HeapMem::expand", "src/mem/heap.rs", "expand", ["C10"], assume, on_return, on_panic, "doubling growth (amortisation lemma)")
 
 
+def _elem_layout_invariant(root):
+    def assume(ex, p):
+        es, al = sym(ex, p, root, ("size",)), sym(ex, p, root, ("align",))
+        return [("the element Layout is the layout of a Rust type: alignment a power of two <= 2^29, size a multiple of it",
+                 AND("(not (= %s %s))" % (al, bvconst(0)), "(= (bvand %s (bvsub %s %s)) %s)" % (al, al, bvconst(1), bvconst(0)), "(bvule %s %s)" % (al, bvconst(1 << 29)),
+                     "(= (bvand %s (bvsub %s %s)) %s)" % (es, al, bvconst(1), bvconst(0))))]
+    return assume
+
+
 def spec_stack_build():
     def on_return(ex, p):
         es = sym(ex, p, "O:arg2", ("size",))
@@ -369,7 +395,11 @@ def spec_stack_build():
         size = ex.read_cell(p, "L:_0", ("n:size",), "usize")[1]
         divs = [n for n in p.notes if n[0] == "div"]
         if not divs:
-            return [("capacity for zero-sized elements is usize::MAX", AND("(= %s %s)" % (es, bvconst(0)), "(= %s %s)" % (size, bvconst((1 << 64) - 1))))]
+            # no division on this path: state floor(SIZE / size) directly (128-bit products; fine for finding a counterexample)
+            c1 = "(bvadd %s %s)" % (zx(size), bvconst(1, 128))
+            return [("capacity is usize::MAX for zero-sized elements, otherwise floor(SIZE / element size): capacity x size <= SIZE < (capacity + 1) x size",
+                     "(ite (= %s %s) (= %s %s) (and (bvule (bvmul %s %s) %s) (bvult %s (bvmul %s %s))))" % (
+                         es, bvconst(0), size, bvconst((1 << 64) - 1), zx(size), zx(es), zx("cg_SIZE"), zx("cg_SIZE"), c1, zx(es)))]
         _, q, r, x, y = divs[0]
         # floor division stated on the lemma's own product term: SIZE = capacity x size + r, r < size
         return [("capacity is floor(SIZE / element size): SIZE = capacity x size + r with r < size",
@@ -378,7 +408,7 @@ def spec_stack_build():
 
     def on_panic(ex, p):
         return [("never panics", "false")]
-    return Spec("Stack::build", "src/mem/stack.rs", "build", ["C11"], None, on_return, on_panic, "capacity computation, SIZE and element size free 64-bit variables (division by fresh q,r + division lemma)")
+    return Spec("Stack::build", "src/mem/stack.rs", "build", ["C11"], _elem_layout_invariant("O:arg2"), on_return, on_panic, "capacity computation, SIZE and element size free 64-bit variables (division by fresh q,r + division lemma)")
 
 
 def spec_stackn_build():
@@ -393,7 +423,7 @@ def spec_stackn_build():
 
     def on_panic(ex, p):
         return [("panics only if N elements do not fit", NOT(fits(ex, p)))]
-    return Spec("StackN::build", "src/mem/stack_n.rs", "build", ["C11"], None, on_return, on_panic, "N x element size <= SIZE, all three free 64-bit variables")
+    return Spec("StackN::build", "src/mem/stack_n.rs", "build", ["C11"], _elem_layout_invariant("O:arg2"), on_return, on_panic, "N x element size <= SIZE, all three free 64-bit variables")
 
 
 def spec_iter_len(method):
